@@ -455,7 +455,7 @@ class CHECK(Check):
 
     def gen_predict(self, rng):
         est = rng.choice(PREDICTORS)
-        fitted = rng.random() < 0.25 and est not in ("adv.predict",)
+        fitted = rng.random() < 0.25 and not est.startswith("adv")
         n, X, y, sf = self._base_data(rng)
         return {"ep": "predict", "est": est, "fitted": fitted, "n": n, "X": X, "y": y, "sf": sf,
                 "cont": {"X": rng.choice(X_CONT)}, "defect": None if fitted else "unfitted"}
